@@ -23,35 +23,42 @@ VARIABLES dev,        \* the device
           running,    \* the user's bridge is running
           view,       \* what the bridge last handed to the user's callback ("none" before the first)
           lastCmd,    \* the last operation the device acknowledged: <<kind, value>>
-          seen        \* number of broadcasts delivered since lastCmd was acknowledged and that were SENT after it
-vars == <<dev, air, running, view, lastCmd, seen>>
+          seen,       \* number of broadcasts delivered since lastCmd was acknowledged and that were SENT after it
+          read,       \* what the API object's last state query returned ("none" before the first)
+          quiet       \* TRUE while neither time nor another command has moved the device since lastCmd
+vars == <<dev, air, running, view, lastCmd, seen, read, quiet>>
 None == [state |-> -1]
 
-Init == dev = Dev0 /\ air = <<>> /\ running = FALSE /\ view = None /\ lastCmd = <<"none", 0>> /\ seen = 0
+Init == dev = Dev0 /\ air = <<>> /\ running = FALSE /\ view = None /\ lastCmd = <<"none", 0>> /\ seen = 0 /\ read = None /\ quiet = FALSE
 
 \* the user's API object performs an operation; the device applies the decoded frame and acknowledges
 Control(on, m) ==
   /\ dev' = Apply(dev, Ctx @@ [kind |-> "control", on |-> on, timer |-> TimerField(m)])
-  /\ lastCmd' = <<"control", on>> /\ seen' = 0 /\ air' = <<>>      \* (broadcasts already in the air are older than the command)
+  /\ lastCmd' = <<"control", on, m>> /\ seen' = 0 /\ air' = <<>>      \* (broadcasts already in the air are older than the command)
+  /\ read' = None /\ quiet' = TRUE
   /\ UNCHANGED <<running, view>>
 SetAutoOff(s) ==
   /\ dev' = Apply(dev, Ctx @@ [kind |-> "autooff", secs |-> AutoOffField(s)])
-  /\ lastCmd' = <<"autooff", s>> /\ seen' = 0 /\ air' = <<>> /\ UNCHANGED <<running, view>>
-Elapse1 == dev' = Elapse(dev, Step) /\ UNCHANGED <<air, running, view, lastCmd, seen>>
-Broadcast == Len(air) < MaxAir /\ air' = Append(air, Reported(dev)) /\ UNCHANGED <<dev, running, view, lastCmd, seen>>
-Lose == air # <<>> /\ air' = Tail(air) /\ UNCHANGED <<dev, running, view, lastCmd, seen>>
+  /\ lastCmd' = <<"autooff", s>> /\ seen' = 0 /\ air' = <<>> /\ read' = None /\ quiet' = TRUE /\ UNCHANGED <<running, view>>
+\* the API object asks the device for its state over TCP (the same connection the commands use)
+Query == read' = Readback(dev) /\ UNCHANGED <<dev, air, running, view, lastCmd, seen, quiet>>
+Elapse1 == dev' = Elapse(dev, Step) /\ quiet' = FALSE /\ UNCHANGED <<air, running, view, lastCmd, seen, read>>
+Broadcast == Len(air) < MaxAir /\ air' = Append(air, Reported(dev)) /\ UNCHANGED <<dev, running, view, lastCmd, seen, read, quiet>>
+Lose == air # <<>> /\ air' = Tail(air) /\ UNCHANGED <<dev, running, view, lastCmd, seen, read, quiet>>
 Deliver == /\ running /\ air # <<>> /\ view' = Head(air) /\ air' = Tail(air) /\ seen' = 1
-           /\ UNCHANGED <<dev, running, lastCmd>>
-Start == ~running /\ running' = TRUE /\ UNCHANGED <<dev, air, view, lastCmd, seen>>
-Stop == running /\ running' = FALSE /\ UNCHANGED <<dev, air, view, lastCmd, seen>>
+           /\ UNCHANGED <<dev, running, lastCmd, read, quiet>>
+Start == ~running /\ running' = TRUE /\ UNCHANGED <<dev, air, view, lastCmd, seen, read, quiet>>
+Stop == running /\ running' = FALSE /\ UNCHANGED <<dev, air, view, lastCmd, seen, read, quiet>>
 
 Next == \/ \E on \in {0, 1}, m \in Timers : Control(on, m)
         \/ \E s \in AutoOffs : SetAutoOff(s)
-        \/ Elapse1 \/ Broadcast \/ Lose \/ Deliver \/ Start \/ Stop
+        \/ Query \/ Elapse1 \/ Broadcast \/ Lose \/ Deliver \/ Start \/ Stop
 Spec == Init /\ [][Next]_vars /\ WF_vars(Elapse1)
 
 ---------------------------------------------------------------------------
-TypeOK == dev.power \in {0, 1} /\ dev.remaining \in 0..86399 /\ dev.autoOff \in 0..86399
+\* bound for the quick configuration: a heater kept on by repeated commands is followed for a few steps only
+ShortOn == dev.onFor <= 3 * Step
+TypeOK == dev.power \in {0, 1} /\ dev.remaining \in 0..86399 /\ dev.autoOff \in 0..86399 /\ dev.onFor \in 0..86399
 \* an OFF device has no time left; an ON device has some
 PowerAndTimerAgree == (dev.power = 0 <=> dev.remaining = 0)
 \* a broadcast never shows power or remaining time for a device that is OFF (the normalisation of C05, at the source)
@@ -62,12 +69,24 @@ SeesTheCommand ==
      CASE lastCmd[1] = "control" /\ lastCmd[2] = 0 -> view.state = 0
        [] lastCmd[1] = "autooff" -> view.auto = HHMMSS(lastCmd[2] - (lastCmd[2] % 60))
        [] OTHER -> TRUE
+\* a broadcast and a state reply taken from one device state agree on everything both carry; an OFF device has not been on
+ViewsAgreeAlways == ViewsAgree(dev) /\ (dev.power = 0 => dev.onFor = 0)
+\* what a state query returns right after an acknowledged command (before time moves): that command's effect
+ReadSeesTheCommand ==
+  (read # None /\ quiet) =>
+     CASE lastCmd[1] = "control" /\ lastCmd[2] = 0 -> read.state = 0 /\ read.watts = 0 /\ read.left = HHMMSS(0) /\ read.on = HHMMSS(0)
+       [] lastCmd[1] = "control" /\ lastCmd[2] = 1 ->
+            read.state = 1 /\ read.left = HHMMSS(Least(86399, IF lastCmd[3] > 0 THEN 60 * lastCmd[3] ELSE dev.autoOff))
+       [] lastCmd[1] = "autooff" -> read.auto = HHMMSS(lastCmd[2] - (lastCmd[2] % 60))
+       [] OTHER -> TRUE
+\* a state query changes nothing at the device, in the air or at the bridge
+QueriesAreReadOnly == [][Query => dev' = dev /\ air' = air /\ view' = view]_vars
 \* nothing reaches the callback while the bridge is stopped
 NoDeliveryWhileStopped == [][~running => view' = view]_vars
 \* the timer only moves towards zero unless the user intervenes
 TimerCountsDown == [][Elapse1 => dev'.remaining <= dev.remaining /\ dev'.autoOff = dev.autoOff /\ dev'.name = dev.name]_vars
 \* only the user's operations and the passing of time change the device: the bridge and the air do not
-OnlyCommandsAndTimeChangeTheDevice == [][(Broadcast \/ Lose \/ Deliver \/ Start \/ Stop) => dev' = dev]_vars
+OnlyCommandsAndTimeChangeTheDevice == [][(Query \/ Broadcast \/ Lose \/ Deliver \/ Start \/ Stop) => dev' = dev]_vars
 \* liveness: a heater that is on switches itself off if nobody interferes (timer or auto-shutdown)
 SwitchesOffEventually == (<>[][~(\E on \in {0, 1}, m \in Timers : Control(on, m))]_vars) => <>(dev.power = 0)
 =============================================================================
